@@ -530,7 +530,7 @@ func runPlain(ctx *bex.Ctx) {
 			h.pipelineCases(ctx, stDefs, cdefs, stages, cons)
 		}
 	})
-	ctx.SpaceDone(fmt.Sprintf("source numbers(n).map(counting closure) -> every sequence of <= %d stages out of %d stage variants -> 8 consumers; decisive position k in 0..6 (+ absent value); n in {0,1,2,5,k+5,24,10^11}; failing call at every position 0..needed+3 of the source and of every stage closure and of the consumer predicate, or nowhere", maxStages, len(stDefs)))
+	ctx.SpaceDone(fmt.Sprintf("source numbers(n).map(counting closure) -> every sequence of <= %d stages out of %d stage variants -> 9 consumers; decisive position k in 0..6 (+ absent value); n in {0,1,2,5,k+5,24,10^11}; failing call at every position 0..needed+3 of the source and of every stage closure and of the consumer predicate, or nowhere", maxStages, len(stDefs)))
 
 	// (2) pipelines that are built but not consumed
 	ctx.Space("unconsumed")
